@@ -1,5 +1,441 @@
-"""engine verus (filled in below)"""
+"""Engine V: Verus on functions extracted mechanically from /repo on every run (DESIGN.md §2.3).
+
+A unit (contracts/verus/<unit>.toml) lists
+  * items copied VERBATIM from /repo (enums, structs, fns), located by name / enclosing-item scope;
+  * a closed list of declared rewrites (R1 trait-parameter collapse, R2 matches!-ref, R4 outlining of an
+    exact expression into a helper with an assumed contract) — every instance is logged;
+  * the contract text woven around the verbatim code: named return value, requires/ensures/decreases,
+    loop invariants keyed by loop ordinal, proof blocks anchored before an exact source line;
+  * a prelude (spec functions = the oracle, trait interface, helper declarations).
+Weaving inserts ghost text only.  Faithfulness is checked on every run: erasing the inserted text and
+reverting the logged replacements must reproduce the original item text exactly.
+Results: per-function success from Verus' JSON (`function-breakdown`) -> one obligation per function
+under contract; failures carry Verus' message and the woven clause at the reported line.
+"""
+import hashlib
+import json
+import os
+import re
+import subprocess
+import time
+import tomllib
+
+from . import rustlex
+from .overlay import REPO, rd, AnchorLost
+from .report import Obligation
+
+VERIF = os.path.dirname(os.path.dirname(os.path.abspath(__file__)))
+
+
+class Unsupported(Exception):
+    pass
+
+
+def find_item(src, kind, name):
+    """span (start_of_first_attr_line, end) of `enum|struct|trait NAME {...}` / `const NAME ...;`"""
+    m = rustlex.mask(src)
+    if kind == 'const':
+        mm = re.search(r'^[ \t]*(pub(\([^)]*\))?\s+)?const\s+' + re.escape(name) + r'\b[^;]*;', m, re.M)
+        if not mm:
+            raise AnchorLost(f'const {name} not found')
+        return mm.start(), mm.end()
+    mm = list(re.finditer(r'^[ \t]*(pub(\([^)]*\))?\s+)?' + kind + r'\s+' + re.escape(name) + r'\b', m, re.M))
+    if len(mm) != 1:
+        raise AnchorLost(f'{kind} {name}: {len(mm)} candidates')
+    s = mm[0].start()
+    ob = m.index('{', mm[0].end())
+    e = rustlex.match_brace(m, ob) + 1
+    # preceding attribute lines (#[derive..]) belong to the item; doc comments are dropped
+    lines_before = src[:s].split('\n')
+    k = len(lines_before) - 2  # last complete line before the item line
+    attrs = []
+    while k >= 0:
+        ln = lines_before[k].strip()
+        if ln.startswith('#['):
+            attrs.insert(0, lines_before[k])
+            k -= 1
+        elif ln.startswith('///') or ln == '' and False:
+            k -= 1
+        else:
+            break
+    return s, e, attrs
+
+
+def strip_docs(text):
+    """drop doc comments and plain comments inside an item (logged as dropped)"""
+    out = []
+    for ln in text.split('\n'):
+        if ln.strip().startswith('///') or ln.strip().startswith('//!'):
+            continue
+        out.append(ln)
+    return '\n'.join(out)
+
+
+R1_BOUND = re.compile(r'EbmlSpecification<(\w+)>\s*\+\s*EbmlTag<\1>\s*\+\s*Clone')
+
+
+class Weaver:
+    """positions refer to the ORIGINAL item text; edits are applied back to front"""
+
+    def __init__(self, orig):
+        self.orig = orig
+        self.masked = rustlex.mask(orig)
+        self.ins = []    # (pos, text)
+        self.repl = []   # (start, end, new)
+        self.log = []
+
+    def insert(self, pos, text, why):
+        self.ins.append((pos, text))
+        self.log.append({'op': 'insert', 'at': pos, 'why': why, 'text': text.strip()[:200]})
+
+    def replace(self, start, end, new, why):
+        self.repl.append((start, end, new))
+        self.log.append({'op': 'replace', 'why': why, 'before': self.orig[start:end], 'after': new})
+
+    def render(self):
+        edits = [(p, p, t, 'ins') for p, t in self.ins] + [(s, e, n, 'repl') for s, e, n in self.repl]
+        # stable order: by position; insertions at the same position keep their registration order
+        edits = sorted(enumerate(edits), key=lambda x: (x[1][0], x[0]))
+        out = []
+        cur = 0
+        back = []
+        for _, (s, e, t, kind) in edits:
+            if s < cur:
+                raise Unsupported('overlapping edits')
+            out.append(self.orig[cur:s])
+            back.append(self.orig[cur:s])
+            out.append(t)
+            if kind == 'repl':
+                back.append(self.orig[s:e])
+            cur = e
+        out.append(self.orig[cur:])
+        back.append(self.orig[cur:])
+        faithful = ''.join(back) == self.orig
+        return ''.join(out), faithful
+
+
+def weave_fn(text, spec, unit_name):
+    """text: verbatim fn item.  spec: dict from the unit file."""
+    w = Weaver(text)
+    m = w.masked
+    fn_pos = re.search(r'\bfn\s+' + re.escape(spec['name']) + r'\b', m).start()
+    # body brace
+    depth = 0
+    k = fn_pos
+    body_open = None
+    while k < len(m):
+        ch = m[k]
+        if ch in '([':
+            depth += 1
+        elif ch in ')]':
+            depth -= 1
+        elif ch == '{' and depth == 0:
+            body_open = k
+            break
+        k += 1
+    if body_open is None:
+        raise Unsupported(f'{spec["name"]}: no body')
+    body_close = rustlex.match_brace(m, body_open)
+    sig = text[:body_open]
+    # R1 in the signature
+    for mm in R1_BOUND.finditer(m[:body_open]):
+        w.replace(mm.start(), mm.end(), 'EbmlSpecification', 'R1 trait-parameter collapse')
+    # R3-lite: nothing
+    # named return value
+    ret = spec.get('ret')
+    arrow = None
+    d = 0
+    for i in range(fn_pos, body_open):
+        if m[i] in '(<[':
+            d += 1
+        elif m[i] in ')]':
+            d -= 1
+        elif m[i] == '>' and m[i - 1] != '-':
+            d -= 1
+        if m.startswith('->', i) and d == 0:
+            arrow = i
+    if ret:
+        if arrow is None:
+            raise Unsupported(f'{spec["name"]}: no return type to name')
+        ty_start = arrow + 2
+        ty_end = body_open
+        # where clause?
+        wm = re.search(r'\bwhere\b', m[ty_start:body_open])
+        if wm:
+            ty_end = ty_start + wm.start()
+        ty = text[ty_start:ty_end].strip()
+        # insert "(r: " before type and ")" after
+        lead = len(text[ty_start:ty_end]) - len(text[ty_start:ty_end].lstrip())
+        trail = len(text[ty_start:ty_end].rstrip())
+        w.insert(ty_start + lead, f'({ret}: ', 'named return value')
+        w.insert(ty_start + trail, ')', 'named return value')
+    clauses = []
+    for key in ('requires', 'ensures'):
+        if spec.get(key):
+            clauses.append(f'    {key}\n' + ''.join(f'        {c},\n' for c in spec[key]))
+    if spec.get('decreases'):
+        clauses.append(f'    decreases {spec["decreases"]}\n')
+    if spec.get('external_body'):
+        w.insert(0, '#[verifier::external_body]\n', 'assumed contract (external_body)')
+    if clauses:
+        w.insert(body_open, '\n' + ''.join(clauses), 'contract')
+    # loops by ordinal
+    loops = []
+    for mm in re.finditer(r'\b(while|loop|for)\b', m[body_open:body_close]):
+        p = body_open + mm.start()
+        # `for` only as a statement head (preceded by whitespace / brace / semicolon)
+        prev = m[:p].rstrip()
+        if prev and prev[-1] not in '{};)':
+            continue
+        loops.append(p)
+    for i, lp in enumerate(spec.get('loop', [])):
+        if i >= len(loops):
+            raise AnchorLost(f'{spec["name"]}: loop #{i} not found')
+        p = loops[i]
+        d = 0
+        k = p
+        lb = None
+        while k < body_close:
+            ch = m[k]
+            if ch in '([':
+                d += 1
+            elif ch in ')]':
+                d -= 1
+            elif ch == '{' and d == 0:
+                lb = k
+                break
+            k += 1
+        if lb is None:
+            raise AnchorLost(f'{spec["name"]}: loop #{i} body not found')
+        txt = '\n'
+        for key in ('invariant', 'invariant_except_break', 'ensures'):
+            if lp.get(key):
+                txt += f'        {key}\n' + ''.join(f'            {c},\n' for c in lp[key])
+        if lp.get('decreases'):
+            txt += f'        decreases {lp["decreases"]}\n'
+        txt += '    '
+        w.insert(lb, txt, f'loop #{i} invariant')
+    if len(spec.get('loop', [])) != len(loops) and spec.get('loop') is not None and not spec.get('external_body'):
+        if len(loops) > len(spec.get('loop', [])):
+            raise AnchorLost(f'{spec["name"]}: {len(loops)} loops in the code, {len(spec.get("loop", []))} invariants in the contract')
+    # ghost blocks before an exact source line
+    lines = text.split('\n')
+    offs = []
+    o = 0
+    for ln in lines:
+        offs.append(o)
+        o += len(ln) + 1
+    for g in spec.get('ghost', []):
+        if 'before_re' in g:
+            # lenient anchor: a regular expression on the trimmed source line, so that an edit elsewhere on the
+            # line (the kind of change a contract is supposed to notice) does not lose the anchor
+            want = g['before_re']
+            hits = [i for i, ln in enumerate(lines) if re.search(want, ln.strip())]
+        else:
+            want = g['before'].strip()
+            hits = [i for i, ln in enumerate(lines) if ln.strip() == want]
+        occ = g.get('occurrence', 0)
+        if len(hits) <= occ:
+            raise AnchorLost(f'{spec["name"]}: ghost anchor line not found: {want!r}')
+        i = hits[occ]
+        indent = re.match(r'\s*', lines[i]).group(0)
+        w.insert(offs[i], ''.join(indent + x + '\n' for x in g['text'].strip('\n').split('\n')), 'proof block')
+    # R4 outlining
+    for ol in spec.get('outline', []):
+        cnt = text.count(ol['expr'])
+        if cnt != 1:
+            raise AnchorLost(f'{spec["name"]}: R4 target occurs {cnt}x: {ol["expr"]!r}')
+        s = text.index(ol['expr'])
+        w.replace(s, s + len(ol['expr']), ol['call'], 'R4 outlining into helper with assumed contract')
+    # R2
+    for r2 in spec.get('r2', []):
+        cnt = text.count(r2['from'])
+        if cnt != 1:
+            raise AnchorLost(f'{spec["name"]}: R2 target occurs {cnt}x')
+        s = text.index(r2['from'])
+        w.replace(s, s + len(r2['from']), r2['to'], 'R2 matches!/ref-pattern normalisation')
+    out, faithful = w.render()
+    return out, faithful, w.log
+
+
+def build_unit(unit_path, out_path):
+    with open(unit_path, 'rb') as f:
+        u = tomllib.load(f)
+    parts = ['// GENERATED on every run by vlib/verus.py from /repo — do not edit', 'use vstd::prelude::*;', 'verus! {', '']
+    info = {'unit': u['name'], 'items': [], 'functions': [], 'rewrites': [], 'faithful': True, 'line_map': []}
+    prelude = open(os.path.join(VERIF, u['prelude'])).read()
+    parts.append('// ---- prelude (specification vocabulary, trait interface, helper declarations) ----')
+    parts.append(prelude)
+    for it in u.get('item', []):
+        src = rd(os.path.join(REPO, it['file'])).replace('\r\n', '\n')
+        s, e, attrs = find_item(src, it['kind'], it['name'])
+        text = strip_docs(src[s:e])
+        keep_attrs = [a.strip() for a in attrs if a.strip().startswith('#[derive')]
+        parts.append(f'// ---- verbatim: {it["kind"]} {it["name"]} from {it["file"]} ----')
+        parts.extend(keep_attrs)
+        parts.append(text)
+        info['items'].append({'file': it['file'], 'kind': it['kind'], 'name': it['name'], 'sha256': hashlib.sha256(src[s:e].encode()).hexdigest(), 'dropped': 'doc comments'})
+    for group in u.get('impl', []):
+        parts.append(group['header'] + ' {')
+        for fs in group['fn']:
+            _emit_fn(fs, parts, info, u, indent='')
+        parts.append('}')
+    for fs in u.get('fn', []):
+        _emit_fn(fs, parts, info, u, indent='')
+    parts.append('} // verus!')
+    parts.append('fn main() {}')
+    text = '\n'.join(parts) + '\n'
+    with open(out_path, 'w') as f:
+        f.write(text)
+    # line map: function name -> (first, last) line in the generated file
+    lines = text.split('\n')
+    for fnrec in info['functions']:
+        marker = f'// ---- fn {fnrec["name"]} '
+        for i, ln in enumerate(lines):
+            if ln.startswith(marker):
+                j = i + 1
+                while j < len(lines) and not lines[j].startswith('// ---- '):
+                    j += 1
+                fnrec['lines'] = (i + 1, j)
+                break
+    return u, info
+
+
+def _emit_fn(fs, parts, info, u, indent=''):
+    src = rd(os.path.join(REPO, fs['file'])).replace('\r\n', '\n')
+    try:
+        pos = rustlex.find_fn(src, fs['name'], fs.get('scope', ''))
+    except LookupError as e:
+        raise AnchorLost(f'{fs["file"]}: {e}')
+    a, b = rustlex.fn_item_span(src, pos)
+    orig = src[a:b]
+    woven, faithful, log = weave_fn(strip_docs(orig) if False else orig, fs, u['name'])
+    if not faithful:
+        info['faithful'] = False
+    parts.append(f'// ---- fn {fs["name"]} from {fs["file"]} ({"ASSUMED contract, body not verified" if fs.get("external_body") else "verbatim body + woven contract"}) ----')
+    parts.append(woven)
+    info['functions'].append({'name': fs['name'], 'file': fs['file'], 'item_sha256': hashlib.sha256(orig.encode()).hexdigest(), 'engine': 'V (Verus)',
+                              'assumed': bool(fs.get('external_body')), 'ensures': fs.get('ensures', []), 'requires': fs.get('requires', [])})
+    for l in log:
+        if l['op'] == 'replace':
+            info['rewrites'].append({'fn': fs['name'], **l})
+
+
+def run_verus(path, timeout=600, rlimit=None):
+    cmd = ['verus', path, '--output-json', '--time', '--multiple-errors', '20']
+    if rlimit:
+        cmd += ['--rlimit', str(rlimit)]
+    t0 = time.time()
+    try:
+        p = subprocess.run(cmd, capture_output=True, text=True, timeout=timeout, cwd=os.path.dirname(path))
+    except subprocess.TimeoutExpired:
+        return None, 'timeout', time.time() - t0, ' '.join(cmd)
+    return p, None, time.time() - t0, ' '.join(cmd)
+
+
+def parse(p):
+    try:
+        d = json.loads(p.stdout)
+    except Exception:
+        return None
+    return d
+
+
+def units_for(prop):
+    res = []
+    d = os.path.join(VERIF, 'contracts', 'verus')
+    if not os.path.isdir(d):
+        return res
+    for fn in sorted(os.listdir(d)):
+        if fn.endswith('.toml'):
+            with open(os.path.join(d, fn), 'rb') as f:
+                u = tomllib.load(f)
+            if prop in u.get('props', []):
+                res.append(os.path.join(d, fn))
+    return res
 
 
 def run_units(ctx):
-    return
+    for up in units_for(ctx.prop):
+        run_unit(ctx, up)
+
+
+def run_unit(ctx, up):
+    out = os.path.join(ctx.scratch, 'verus_unit_' + os.path.basename(up)[:-5] + '.rs')
+    try:
+        u, info = build_unit(up, out)
+    except AnchorLost as e:
+        ctx.infra_errors.append(f'V unit {os.path.basename(up)}: extraction anchor lost: {e}')
+        return
+    except Unsupported as e:
+        ctx.infra_errors.append(f'V unit {os.path.basename(up)}: unsupported construct: {e}')
+        return
+    if not info['faithful']:
+        ctx.infra_errors.append(f'V unit {u["name"]}: faithfulness check failed (woven text minus ghost text != /repo text)')
+        return
+    p, err, wall, cmd = run_verus(out, timeout=u.get('timeout_s', 900))
+    ctx.checker_cmds.append(cmd.replace(ctx.scratch, '<scratch>'))
+    ctx._extra.setdefault('engine_wall_s', {})['V:' + u['name']] = round(wall, 1)
+    ctx._extra.setdefault('verus_functions', []).extend(
+        {'fn': f['name'], 'file': f['file'], 'item_sha256': f['item_sha256'], 'engine': 'V (Verus, extracted)' + (' — ASSUMED contract (external_body)' if f['assumed'] else ''), 'ensures': f['ensures']} for f in info['functions'])
+    ctx._extra.setdefault('extraction', []).append({'unit': u['name'], 'faithful': info['faithful'], 'items': info['items'], 'rewrites': info['rewrites'],
+                                                    'dropped': 'doc comments and #[inline] attributes; everything else of each listed item is verbatim'})
+    if err == 'timeout':
+        ctx.obligations.append(Obligation(f'V:{u["name"]}', 'V', 'undecided', detail='verus timeout', unit=u['name']))
+        return
+    d = parse(p)
+    stderr = p.stderr
+    if d is None or 'verification-results' not in d:
+        ctx.obligations.append(Obligation(f'V:{u["name"]}', 'V', 'undecided', detail='verus produced no JSON (crash or unsupported construct): ' + stderr[-1500:], unit=u['name'], raw=stderr[-6000:]))
+        return
+    vr = d['verification-results']
+    if vr.get('encountered-error') and not vr.get('errors') and not vr.get('verified'):
+        ctx.obligations.append(Obligation(f'V:{u["name"]}', 'V', 'undecided', detail='verus could not compile the extracted unit (syntax/type error, not a verification failure): ' + stderr[-1500:], unit=u['name'], raw=stderr[-6000:]))
+        return
+    if vr.get('encountered-vir-error'):
+        ctx.obligations.append(Obligation(f'V:{u["name"]}', 'V', 'undecided', detail='verus rejected the unit (unsupported construct / type error): ' + stderr[-1500:], unit=u['name'], raw=stderr[-6000:]))
+        return
+    breakdown = {}
+    for mod in d.get('times-ms', {}).get('smt', {}).get('smt-run-module-times', []):
+        for fb in mod.get('function-breakdown', []):
+            breakdown[fb['function'].split('::', 1)[1]] = fb
+    # error messages grouped by generated-file line -> function
+    errs = re.split(r'\n(?=error)', stderr)
+    modname = os.path.basename(out)[:-3]
+    gen_lines = open(out).read().split('\n')
+    n_fn = 0
+    for f in info['functions']:
+        if f['assumed']:
+            continue
+        n_fn += 1
+        key = None
+        for k in breakdown:
+            if k == f['name'] or k.endswith('::' + f['name']):
+                key = k
+        name = f'V:{u["name"]}::{f["name"]}'
+        clause = ' && '.join(f['ensures'])
+        lo, hi = f.get('lines', (0, 0))
+        mine = []
+        for e in errs:
+            mm = re.search(r'-->\s*\S+?:(\d+):', e)
+            if mm and lo <= int(mm.group(1)) <= hi:
+                mine.append(e.strip())
+        if key is None:
+            if any('rlimit' in e.lower() or 'resource limit' in e.lower() for e in mine):
+                ctx.obligations.append(Obligation(name, 'V', 'undecided', clause=clause, detail='rlimit exceeded', unit=u['name']))
+            elif mine:
+                ctx.obligations.append(Obligation(name, 'V', 'failed', clause=clause, detail=mine[0][:1500], unit=u['name'], raw='\n\n'.join(mine)))
+            else:
+                ctx.obligations.append(Obligation(name, 'V', 'undecided', clause=clause, detail='function missing from the Verus report', unit=u['name']))
+            continue
+        fb = breakdown[key]
+        if fb.get('success') and not mine:
+            ctx.obligations.append(Obligation(name, 'V', 'discharged', clause=clause, unit=u['name'], time_s=fb.get('time-micros', 0) / 1e6, n_checks=1,
+                                              extra={'rlimit': fb.get('rlimit'), 'unbounded': True}))
+        else:
+            if any('rlimit' in e.lower() or 'resource limit' in e.lower() for e in mine):
+                ctx.obligations.append(Obligation(name, 'V', 'undecided', clause=clause, detail='rlimit exceeded: ' + mine[0][:800], unit=u['name'], raw='\n\n'.join(mine)))
+            else:
+                ctx.obligations.append(Obligation(name, 'V', 'failed', clause=clause, detail=(mine[0] if mine else 'verification failed')[:1500], unit=u['name'], raw='\n\n'.join(mine)[-8000:],
+                                                  n_checks=1, n_failed=1, extra={'generated_file_excerpt': '\n'.join(gen_lines[max(0, lo - 1):hi])[:6000]}))
+    ctx._samples.append({'verus_unit': u['name'], 'functions_verified': n_fn, 'verus_summary': vr})
